@@ -78,6 +78,10 @@ F = {
    what="a data race ordered only by the total order of SeqCst fences is never reported: every fence(SeqCst) joins and updates one shared clock (seq_cst_causality), so a later SeqCst fence acquires everything that happened before any earlier one, although in C11/RC11 the order of SeqCst fences is not part of happens-before (a relay through relaxed accesses of a third thread publishes nothing); fences are also not scheduling points, so the opposite order of two fences is not explored either (rt/atomic.rs fence_seqcst, rt/thread.rs Set::seq_cst_fence)",
    entries=[("C04", "missed_failure", "cfg x=2 c=1 | T0: spawn 1; spawn 2; cwr 0 5; fence sc; st 0 1 rlx; join 1; join 2 | T1: ld 0 rlx; ifeq 1 v:1 1; st 1 1 rlx | T2: ld 1 rlx; fence sc; ifeq 2 v:1 1; crd 0",
              "causality", "rc11-strong")]),
+ "F29": dict(cls="seen-before-yield-prune",
+   what="after a yield_now a thread never again reads a store it has seen (or, for the thread that created the atomic, the initial value) before the yield once a newer store exists - on EVERY location, not only the one its loop waits for: a C11-allowed stale read after the loop (flag seen, data still old) is never explored when the waiting thread created or touched the data location before yielding (rt/atomic.rs match_load_to_stores / FirstSeen::is_seen_before_yield; a deliberate progress heuristic, but C18 asks for every combination of values with which the loop can exit)",
+   entries=[("C18", "missing", "cfg x=2 | T0: spawn 1; yield; ld 0 rlx; ifeq 1 v:1 1; ld 1 rlx; join 1 | T1: st 1 1 rlx; st 0 1 rlx",
+             "ok 0:0=- 0:1=- 0:2=v:1 0:4=v:0 0:5=- 1:0=- 1:1=-", "rc11-strong")]),
  "F11": dict(cls="unstarted-closure-dropped-outside",
    what="the process aborts instead of unwinding to the caller of loom::model when an iteration fails while a spawned thread that has not started yet still owns a loom handle in its closure (`let a2 = a.clone(); thread::spawn(move || use(a2)); assert!(false)`): the closure is dropped with the scheduler's coroutine, outside the execution context (rt/scheduler.rs)",
    entries=[("C06", "abort", "cfg unwind=1 | T0: anew 0; aclone 0 1; spawnown 1 1; panic | T1: adrop 1", "abort")]),
